@@ -235,7 +235,7 @@ class BindStream(Stream):
 
     name = "bind"
     exhaustive = True
-    parallel = True
+    parallel = False  # cases are cheap; a fork pool costs more than it saves on a loaded machine
 
     def cases(self, ctx):
         return call_cases(ctx, "bind")
@@ -438,7 +438,7 @@ def shadow_events(nodes, bound, acc):
 class WithStream(Stream):
     name = "with"
     exhaustive = False
-    parallel = True
+    parallel = False  # cases are cheap; a fork pool costs more than it saves on a loaded machine
 
     def cases(self, ctx):
         rng = ctx.rng_for("with")
